@@ -349,12 +349,12 @@ def real_vdot(case):
     try:
         if how == 1:
             import warnings
-            with warnings.catch_warnings():
+            with warnings.catch_warnings(record=True):
                 warnings.simplefilter("ignore")
                 r = jft.dot(a, b)
         elif how == 2:
             import warnings
-            with warnings.catch_warnings():
+            with warnings.catch_warnings(record=True):
                 warnings.simplefilter("ignore")
                 r = Vector(a) @ Vector(b)
         else:
@@ -557,6 +557,46 @@ def oracle_smap(case):
     return None
 
 
+# ---- complex leaves (Gaussian integers: exact in complex128): oracle only ------------------------------------------------
+def _ctree(case, k):
+    from jax.tree_util import tree_map
+    re_, im_ = to_py(case[k], np.float64), to_py(case[k + "i"], np.float64)
+    return tree_map(lambda x, y: x + 1j * y, re_, im_)
+
+
+def oracle_cplx(case):
+    import nifty.re as jft
+    from nifty.re.tree_math.vector import Vector
+    a, b = _ctree(case, "a"), _ctree(case, "b")
+    fa, fb = flat(a), flat(b)
+    sig = dict(op="cplx")
+    try:
+        v = complex(jft.vdot(a, b))
+        if v != complex(np.vdot(fa, fb)):
+            return (f"vdot of complex trees = {v}, flat arrays give {complex(np.vdot(fa, fb))} (first argument must be conjugated)",
+                    dict(sig, what="vdot"))
+        va = Vector(a)
+        for nm, got, exp in (("conj", va.conj(), np.conj(fa)), ("real", va.real, fa.real), ("imag", va.imag, fa.imag),
+                             ("conjugate", jft.conj(a), np.conj(fa)), ("neg", -va, -fa), ("mul", va * Vector(b), fa * fb),
+                             ("sub", va - Vector(b), fa - fb), ("rsub", (2 + 1j) - va, (2 + 1j) - fa)):
+            if not np.array_equal(flat(got), exp):
+                return (f"Vector.{nm} on complex leaves differs from the flat-array operation", dict(sig, what=nm))
+        n2 = float(jft.norm(a, ord=2))
+        e2 = float(np.sqrt((np.abs(fa) ** 2).sum()))
+        if abs(n2 - e2) > 1e-12 * (1 + e2):
+            return (f"norm(complex tree, 2) = {n2}, flat arrays give {e2}", dict(sig, what="norm2"))
+        n1 = float(jft.norm(a, ord=1))
+        e1 = float(np.abs(fa).sum())
+        if abs(n1 - e1) > 1e-12 * (1 + e1):
+            return (f"norm(complex tree, 1) = {n1}, flat arrays give {e1}", dict(sig, what="norm1"))
+        s_ = complex(jft.sum(a))
+        if s_ != complex(fa.sum()):
+            return ("sum of a complex tree differs from the flat sum", dict(sig, what="sum"))
+    except Exception as e:
+        return (f"tree_math raised {type(e).__name__} on complex leaves: {str(e)[:100]}", dict(sig, what="raised"))
+    return None
+
+
 # ---- dispatch ---------------------------------------------------------------------------------------------------------
 def oracle(case):
     _jax()
@@ -573,6 +613,8 @@ def oracle(case):
         return oracle_where(case)
     if k == "smap":
         return oracle_smap(case)
+    if k == "cplx":
+        return oracle_cplx(case)
     return None
 
 
@@ -614,6 +656,8 @@ def _corpus():
 def model_request(case):
     if case["op"] == "smap":
         return dict(op="smap", cfg="fixed", args=case["args"], outs=case["outs"], len=case["len"])
+    if case["op"] == "cplx":
+        return dict(op="reduce", x=case["a"])        # complex leaves are not modelled: placeholder request
     return {k: v for k, v in case.items() if k != "how"}
 
 
@@ -635,11 +679,20 @@ def run(ctx):
         cases.append(gen_where(rng))
     for _ in range(ctx.n(40, 600)):
         cases.append(gen_smap(rng))
+    for _ in range(ctx.n(25, 300)):
+        a = gen_tree(rng, rng.choice([1, 2, 3]), -5, 5)
+        cases.append(dict(op="cplx", a=a, ai=same_struct(rng, a, -5, 5), b=same_struct(rng, a, -5, 5), bi=same_struct(rng, a, -5, 5)))
     outs = ctx.model(DRIVER, [model_request(c) for c in cases])
     for c, m in zip(cases, outs):
         k = c["op"]
         ctx.stat("op:" + k + (":" + c["f"] if "f" in c else ""))
         try:
+            if k == "cplx":
+                ctx.case(c, num_leaves(c["a"]) >= 2)
+                r = oracle(c)
+                if r:
+                    ctx.counterexample(c, *r)
+                continue
             if k == "binop":
                 impl, _ = real_binop(c)
                 if "error" in impl and impl["error"] in ("TypeError",):
